@@ -76,11 +76,16 @@ XZ(kind, i, L, M) == ZoneBin(LonX(kind, i, L, M)) % C17
 (***************************************************************************)
 \* the even and the odd report of one position use the same NL
 SameBand(L) == NLat("air", 0, L) = NLat("air", 1, L)
-\* Rlat_i is closer than 1e-9 degree to a transition latitude: an f64 evaluation of
-\* Rlat_i may fall on either side, so decoder and (float) encoder may legitimately
-\* disagree about NL there
+\* Rlat_i is closer than 1e-9 degree to a transition latitude without being equal to it:
+\* an f64 evaluation of Rlat_i may fall on either side, so decoder and (float) encoder may
+\* legitimately disagree about NL there.  (The sets are EMPTY on the 2^17 grid: the
+\* closest approach is 4.7e-9 degree, see NLTable.  Rlat = 87 exactly is not a tie: it is
+\* exactly representable and NL(+-87) = 2 by definition, DO-260B A.1.7.2 d.)
 NearThreshold(kind, i, L) == Abs(LatN(kind, i, L)) \in NLTight(kind, i)
 NearThresholdPair(L) == NearThreshold("air", 0, L) \/ NearThreshold("air", 1, L)
+\* the even report's Rlat is exactly +-87 degrees (87 = 14.5 * 6 = 58 * 1.5; odd reports
+\* never are): used only to label rejections there
+Rlat87(kind, i, L) == i = 0 /\ Abs(LatN(kind, 0, L)) * 2 = 29 * C17 * F(kind)
 
 (***************************************************************************)
 (* The standard's decoders in the same exact arithmetic.  They are used    *)
